@@ -9,7 +9,7 @@ def check(ctx):
         "field of GlobalCollector (the one-cycle list of ids finished before their start) is cleared each cycle; R2 the only growing "
         "operation on active_collectors is one insert keyed by StartCollect.collect_id, every CommitCollect removes its "
         "entry unconditionally, DropCollect removes it, span_collections/danglings grow only in the submit phase / "
-        "amend_*; R3 the drain closure removes a receiver only on Err(ChannelClosed), and try_recv reports closed "
+        "amend_*, and start_collect announces exactly the fresh id it returns; R3 the drain closure removes a receiver only on Err(ChannelClosed), and try_recv reports closed "
         "only after is_abandoned() and a second pop, the registry is filtered in place under its lock, and a danglings map exists only inside ActiveCollector; R4 the StartCollect insert must be conditional on the id not being "
         "finished already.")
     ctx.not_decided = ("that retained state IS bounded after every history (the rules pin down who grows and who shrinks "
